@@ -168,10 +168,14 @@ def run(ctx):
 def replay(ctx, path):
     """bin/check C05 --replay <file>: re-runs the recorded case verbosely."""
     text = open(path).read()
-    kv = dict(p.split('=', 1) for p in text.split() if '=' in p)
+    import re
+    kv = dict(re.findall(r'\b(chain|outcomes|fill)=(\S+)', text))
     exe = ctx.driver('c05_policy', ['c05_policy.c'])
     sig, pub = resources()
     rc, out, err = ctx.run([exe, 'one', sig, pub, kv['chain'], kv['outcomes'], kv.get('fill', '1')])
-    print(out.decode('utf-8', 'replace'))
+    print('case: chain=%s outcomes=%s fill=%s' % (kv['chain'], kv['outcomes'], kv.get('fill', '1')))
+    for line in out.decode('utf-8', 'replace').splitlines():
+        if not line.startswith(('EVAL ', 'CNT ', 'DONE', 'FPFILE ')):
+            print(line)
     if err:
         print(err[-4000:])
